@@ -318,6 +318,8 @@ def mutate(tree, mut):
         if n:
             a = rng.choice([a for a in n[2] if a[0] != XSI])
             a[2] = rng.choice(BAD_VALUES)
+            if a[0] == "http://www.w3.org/XML/1998/namespace" and len(a[2].split()) > 1:
+                a[2] = "9id"  # xmlschema validates the xml:lang union token-wise: no blanks there
     elif kind == "text_in_parent":
         n, _ = pick(lambda n, p: not _only_wildcard(n))
         n[3] = n[3] + rng.choice(["x", " ", "\n  ", "text & more"])
